@@ -189,3 +189,315 @@ Example first_match_wins_nontrivial :
                  0 [47;98]
   = NYes [(1%nat, [47;98])] [([120],[98])] [].
 Proof. vm_compute. reflexivity. Qed.
+
+(** ================================================================================
+    Part A — without optional segments a (nested) tuple is the plain left-to-right
+    composition of its leaf segments
+    ================================================================================ *)
+Fixpoint seqT (ts : list (bytes -> tres)) (q : bytes) : tres :=
+  match ts with
+  | [] => TSome [] q []
+  | t :: ts' =>
+      match t q with
+      | TNone => TNone
+      | TPanic => TPanic
+      | TSome m r ps =>
+          match seqT ts' r with
+          | TSome m' r' ps' => TSome (m ++ m') r' (ps ++ ps')
+          | o => o
+          end
+      end
+  end.
+
+Lemma seqT_app : forall a b q,
+  seqT (a ++ b) q =
+  match seqT a q with
+  | TSome m r ps => match seqT b r with
+                    | TSome m' r' ps' => TSome (m ++ m') r' (ps ++ ps')
+                    | o => o
+                    end
+  | o => o
+  end.
+Proof.
+  induction a as [|t a IH]; intros b q; cbn [seqT app].
+  - destruct (seqT b q); reflexivity.
+  - destruct (t q) as [| |m r ps]; try reflexivity.
+    rewrite IH. destruct (seqT a r) as [| |m1 r1 ps1]; try reflexivity.
+    destruct (seqT b r1) as [| |m2 r2 ps2]; try reflexivity.
+    now rewrite !app_assoc.
+Qed.
+
+Lemma seqT_ext : forall (A : Type) (f g : A -> bytes -> tres) l,
+  Forall (fun x => forall q, f x q = g x q) l ->
+  forall q, seqT (map f l) q = seqT (map g l) q.
+Proof.
+  induction 1 as [|x l Hx Hl IH]; intros q; cbn [map seqT]; [reflexivity|].
+  rewrite Hx. destruct (g x q); try reflexivity. now rewrite IH.
+Qed.
+
+Lemma seqT_splits : forall ts, Forall splits ts -> splits (seqT ts).
+Proof.
+  induction 1 as [|t ts Ht Hts IH]; intros q m r ps H; cbn [seqT] in H.
+  - inversion H; subst. reflexivity.
+  - destruct (t q) as [| |m1 r1 p1] eqn:E; try discriminate.
+    destruct (seqT ts r1) as [| |m2 r2 p2] eqn:E2; try discriminate.
+    inversion H; subst. apply Ht in E. apply IH in E2. subst. now rewrite app_assoc.
+Qed.
+
+Lemma pass_rest_seq :
+  forall ts, Forall (fun t : tester => fst t = false) ts ->
+  forall nth r mlen ps,
+    pass_rest ts 0 nth r mlen ps =
+    match seqT (map snd ts) r with
+    | TNone => PFail
+    | TPanic => PPanic
+    | TSome m r' p => PDone r' (mlen + length m)%nat (ps ++ p)
+    end.
+Proof.
+  induction 1 as [|[opt test] ts Ht Hts IH]; intros nth r mlen ps; cbn [pass_rest map seqT snd].
+  - now rewrite Nat.add_0_r, app_nil_r.
+  - simpl in Ht. subst opt. cbn [negb orb].
+    destruct (test r) as [| |m1 r1 p1]; try reflexivity.
+    rewrite IH. destruct (seqT (map snd ts) r1) as [| |m2 r2 p2]; try reflexivity.
+    now rewrite app_length, Nat.add_assoc, app_assoc.
+Qed.
+
+Lemma tuple_loop_seq :
+  forall (t : tester) ts,
+    fst t = false -> Forall (fun t : tester => fst t = false) ts ->
+    splits (snd t) -> Forall (fun t : tester => splits (snd t)) ts ->
+    forall q, tuple_loop t ts 0 q = seqT (snd t :: map snd ts) q.
+Proof.
+  intros [opt test] ts Ho Hos Hs Hss q. simpl in Ho, Hs. subst opt.
+  cbn [tuple_loop pass_first negb orb seqT snd].
+  destruct (test q) as [| |m r p] eqn:E; try reflexivity.
+  rewrite pass_rest_seq by assumption.
+  destruct (seqT (map snd ts) r) as [| |m2 r2 p2] eqn:E2; try reflexivity.
+  f_equal.
+  apply Hs in E.
+  assert (Hsp : splits (seqT (map snd ts))).
+  { apply seqT_splits. clear -Hss. induction Hss; simpl; constructor; auto. }
+  apply Hsp in E2. subst. rewrite app_assoc, <- app_length. apply firstn_app_len.
+Qed.
+
+Fixpoint leaf_list (s : seg) : list seg :=
+  match s with
+  | STuple l => flat_map leaf_list l
+  | x => [x]
+  end.
+
+Lemma seqT_single : forall t q, seqT [t] q = t q.
+Proof.
+  intros. cbn [seqT]. destruct (t q); try reflexivity. now rewrite !app_nil_r.
+Qed.
+
+Lemma seqT_flat : forall (l : list seg) q,
+  seqT (map (fun x => seqT (map seg_test (leaf_list x))) l) q
+  = seqT (map seg_test (flat_map leaf_list l)) q.
+Proof.
+  induction l as [|x l IH]; intros q; cbn [map flat_map seqT]; [reflexivity|].
+  rewrite map_app, seqT_app.
+  destruct (seqT (map seg_test (leaf_list x)) q); try reflexivity.
+  now rewrite IH.
+Qed.
+
+Lemma existsb_false_forall : forall (A : Type) (f : A -> bool) l,
+  existsb f l = false -> Forall (fun x => f x = false) l.
+Proof.
+  induction l; simpl; intros H; constructor.
+  - now apply orb_false_iff in H.
+  - apply IHl. now apply orb_false_iff in H.
+Qed.
+
+Theorem flatten_seg :
+  forall s, seg_optional s = false ->
+  forall q, seg_test s q = seqT (map seg_test (leaf_list s)) q.
+Proof.
+  induction s using seg_ind'; intros Hno q;
+    try (cbn [leaf_list map]; now rewrite seqT_single).
+  cbn [seg_optional] in Hno. apply existsb_false_forall in Hno.
+  assert (Hall : Forall (fun x => forall q, seg_test x q = seqT (map seg_test (leaf_list x)) q) l).
+  { clear -H Hno. induction H; inversion Hno; subst; constructor; auto. }
+  cbn [leaf_list]. rewrite <- seqT_flat.
+  rewrite <- (seqT_ext _ seg_test _ l Hall).
+  cbn [seg_test].
+  destruct l as [|a l]; [reflexivity|].
+  destruct l as [|b l].
+  - cbn [map]. rewrite seqT_single.
+    destruct (seg_test a q) as [| |m r p] eqn:E; try reflexivity.
+    apply seg_test_partition in E. subst q. now rewrite firstn_app_len.
+  - cbn [map].
+    set (ts := (seg_optional b, seg_test b) :: map (fun x => (seg_optional x, seg_test x)) l).
+    assert (Hf : Forall (fun t : tester => fst t = false) ((seg_optional a, seg_test a) :: ts)).
+    { change ((seg_optional a, seg_test a) :: ts)
+        with (map (fun x => (seg_optional x, seg_test x)) (a :: b :: l)).
+      clear -Hno. induction Hno; simpl; constructor; auto. }
+    assert (Hs : Forall (fun t : tester => splits (snd t)) ((seg_optional a, seg_test a) :: ts)).
+    { change ((seg_optional a, seg_test a) :: ts)
+        with (map (fun x => (seg_optional x, seg_test x)) (a :: b :: l)).
+      generalize (a :: b :: l). intros l0. induction l0; simpl; constructor; auto.
+      simpl. intros p m r ps. apply seg_test_partition. }
+    assert (Hc : count_opt ((seg_optional a, seg_test a) :: ts) = 0%nat).
+    { unfold count_opt. clear -Hf. induction Hf as [|[o t] l0 Ho Hl IH]; simpl; auto.
+      simpl in Ho. subst o. exact IH. }
+    rewrite Hc.
+    inversion Hf; subst. inversion Hs; subst.
+    rewrite tuple_loop_seq by assumption.
+    cbn [snd]. unfold ts. cbn [map snd]. rewrite map_map. cbn [snd]. reflexivity.
+Qed.
+
+(** ================================================================================
+    Part B — without optional segments a route tree is the ordered list of its
+    root-to-leaf segment chains; the matcher picks the first chain that completes
+    ================================================================================ *)
+Section RouteInd.
+  Variable P : route -> Prop.
+  Hypothesis Hleaf : forall s, P (Route s None).
+  Hypothesis Hnode : forall s ks, Forall P ks -> P (Route s (Some ks)).
+  Fixpoint route_ind' (r : route) : P r :=
+    match r with
+    | Route s None => Hleaf s
+    | Route s (Some ks) =>
+        Hnode s ks ((fix go (l : list route) : Forall P l :=
+                       match l with
+                       | [] => Forall_nil P
+                       | x :: l' => Forall_cons x (route_ind' x) (go l')
+                       end) ks)
+    end.
+End RouteInd.
+
+Fixpoint chain_route (r : route) : list (list seg) :=
+  match r with
+  | Route s None => [leaf_list s]
+  | Route s (Some ks) => map (app (leaf_list s)) (flat_map chain_route ks)
+  end.
+Definition chains (rs : list route) : list (list seg) := flat_map chain_route rs.
+
+(** no optional segment anywhere, and every [.child(..)] tuple is non-empty *)
+Fixpoint plain_route (r : route) : bool :=
+  match r with
+  | Route s None => negb (seg_optional s)
+  | Route s (Some ks) =>
+      negb (seg_optional s) && match ks with [] => false | _ => true end
+      && forallb plain_route ks
+  end.
+
+Inductive outcome := OPanic | ONo | OYes (ps : params) (rem : bytes).
+
+Definition oproj (n : nres) : outcome :=
+  match n with NPanic => OPanic | NNo => ONo | NYes _ ps rem => OYes ps rem end.
+
+Fixpoint first_chain (Ls : list (list seg)) (q : bytes) : outcome :=
+  match Ls with
+  | [] => ONo
+  | L :: Ls' =>
+      match seqT (map seg_test L) q with
+      | TPanic => OPanic
+      | TNone => first_chain Ls' q
+      | TSome _ r ps => if rem_ok r then OYes ps r else first_chain Ls' q
+      end
+  end.
+
+Lemma first_chain_app : forall A B q,
+  first_chain (A ++ B) q = match first_chain A q with ONo => first_chain B q | o => o end.
+Proof.
+  induction A as [|L A IH]; intros B q; cbn [app first_chain]; [reflexivity|].
+  destruct (seqT (map seg_test L) q) as [| |m r ps]; auto.
+  destruct (rem_ok r); auto.
+Qed.
+
+Lemma first_chain_rem_ok : forall Ls q ps rem,
+  first_chain Ls q = OYes ps rem -> rem_ok rem = true.
+Proof.
+  induction Ls as [|L Ls IH]; intros q ps rem H; cbn [first_chain] in H; [discriminate|].
+  destruct (seqT (map seg_test L) q) as [| |m r p]; try discriminate; eauto.
+  destruct (rem_ok r) eqn:E; eauto. inversion H; subst. exact E.
+Qed.
+
+Lemma first_chain_prefix_some : forall A Ls q m r ps,
+  seqT (map seg_test A) q = TSome m r ps ->
+  first_chain (map (app A) Ls) q =
+  match first_chain Ls r with OYes ips rem => OYes (ps ++ ips) rem | o => o end.
+Proof.
+  intros A Ls q m r ps HA. induction Ls as [|L Ls IH]; cbn [map first_chain]; [reflexivity|].
+  rewrite map_app, seqT_app, HA.
+  destruct (seqT (map seg_test L) r) as [| |m1 r1 p1]; auto.
+  destruct (rem_ok r1); auto.
+Qed.
+
+Lemma first_chain_prefix_none : forall A Ls q,
+  seqT (map seg_test A) q = TNone -> first_chain (map (app A) Ls) q = ONo.
+Proof.
+  intros A Ls q HA. induction Ls as [|L Ls IH]; cbn [map first_chain]; [reflexivity|].
+  rewrite map_app, seqT_app, HA. exact IH.
+Qed.
+
+Lemma first_chain_prefix_panic : forall A Ls q,
+  seqT (map seg_test A) q = TPanic -> Ls <> [] -> first_chain (map (app A) Ls) q = OPanic.
+Proof.
+  intros A Ls q HA Hne. destruct Ls as [|L Ls]; [congruence|].
+  cbn [map first_chain]. now rewrite map_app, seqT_app, HA.
+Qed.
+
+Lemma chain_route_nonempty : forall r, plain_route r = true -> chain_route r <> [].
+Proof.
+  induction r using route_ind'; intros Hp; cbn [chain_route]; [discriminate|].
+  cbn [plain_route] in Hp. apply andb_prop in Hp. destruct Hp as [Hp Hks].
+  apply andb_prop in Hp. destruct Hp as [_ Hne].
+  destruct ks as [|k ks]; [discriminate|].
+  inversion H; subst. cbn [forallb] in Hks. apply andb_prop in Hks. destruct Hks as [Hk _].
+  cbn [flat_map]. intros Hc. apply map_eq_nil in Hc. apply app_eq_nil in Hc.
+  destruct Hc as [Hc _]. now apply H2 in Hk.
+Qed.
+
+Lemma forest_chains :
+  forall ks,
+    Forall (fun r => plain_route r = true ->
+                     forall id q, oproj (match_nested r id q) = first_chain (chain_route r) q) ks ->
+    forallb plain_route ks = true ->
+    forall id q, oproj (first_match match_nested ks id q) = first_chain (flat_map chain_route ks) q.
+Proof.
+  induction 1 as [|k ks Hk Hks IH]; intros Hp id q; cbn [first_match flat_map].
+  - reflexivity.
+  - cbn [forallb] in Hp. apply andb_prop in Hp. destruct Hp as [Hpk Hpks].
+    rewrite first_chain_app, <- (Hk Hpk id q).
+    destruct (match_nested k id q); cbn [oproj]; auto.
+Qed.
+
+Theorem route_chains :
+  forall r, plain_route r = true ->
+  forall id q, oproj (match_nested r id q) = first_chain (chain_route r) q.
+Proof.
+  induction r using route_ind'; intros Hp id q; cbn [match_nested chain_route];
+    unfold nested_step.
+  - cbn [plain_route] in Hp. apply negb_true_iff in Hp.
+    rewrite (flatten_seg s Hp q). cbn [first_chain].
+    destruct (seqT (map seg_test (leaf_list s)) q) as [| |m r ps]; try reflexivity.
+    unfold nested_finish. destruct (rem_ok r); cbn [oproj]; now rewrite ?app_nil_r.
+  - cbn [plain_route] in Hp. apply andb_prop in Hp. destruct Hp as [Hp Hks].
+    apply andb_prop in Hp. destruct Hp as [Hs Hne]. apply negb_true_iff in Hs.
+    pose proof (forest_chains ks H Hks) as HF.
+    rewrite (flatten_seg s Hs q).
+    destruct (seqT (map seg_test (leaf_list s)) q) as [| |m r ps] eqn:E.
+    + now rewrite first_chain_prefix_none.
+    + rewrite first_chain_prefix_panic; auto.
+      destruct ks as [|k ks]; [discriminate|].
+      inversion H; subst. cbn [forallb] in Hks. apply andb_prop in Hks. destruct Hks as [Hk _].
+      cbn [flat_map]. intros Hc. apply app_eq_nil in Hc. destruct Hc as [Hc _].
+      now apply chain_route_nonempty in Hk.
+    + rewrite (first_chain_prefix_some _ _ _ _ _ _ E), <- (HF (S id) r).
+      destruct (first_match match_nested ks (S id) r) as [| |ch ips rem] eqn:E2; cbn [oproj].
+      * reflexivity.
+      * now rewrite Hs.
+      * unfold nested_finish.
+        assert (rem_ok rem = true) as ->; [|reflexivity].
+        eapply first_chain_rem_ok. rewrite <- (HF (S id) r), E2. reflexivity.
+Qed.
+
+Corollary siblings_chains :
+  forall rs, forallb plain_route rs = true ->
+  forall id q, oproj (match_siblings rs id q) = first_chain (chains rs) q.
+Proof.
+  intros rs Hp id q. apply forest_chains; [|exact Hp].
+  apply Forall_forall. intros r _ Hr. now apply route_chains.
+Qed.
